@@ -258,22 +258,40 @@ Definition reach (sz n : Z) (ls : list label) : lstate := lrun ideal (linit idea
     [RStep (LSetMax n)] is a hot reload (SetMaxConnection on the live listener, spec carried
     over); [RRestart] stands for every path that rebuilds the listener from the spec in force:
     a reload that needs a restart, and the recovery of a failed server (eventCheckFailed ->
-    startServer) - NewLimitListener(_, r_spec) on a fresh semaphore, no connection left. *)
-Record rstate := { r_spec : Z; r_l : lstate }.
+    startServer) - NewLimitListener(_, r_spec) on a fresh semaphore.
 
-Inductive rlabel := RStep (l : label) | RRestart.
+    A listener is replaced only once it has been DRAINED: closeServer runs
+    http.Server.Shutdown, which closes the idle connections itself ([LClose] steps) and does
+    not return while a request is in flight (within its 30 s grace, which requests are assumed
+    to meet). So [RRestart] is enabled only when the listener in force has no open connection;
+    [r_old] counts the connections left open on replaced listeners - they are served side by
+    side with those of the new listener and belong to the same cap.
+    [RRestartUndrained] is the replacement WITHOUT that wait (documented counter-shape). *)
+Record rstate := { r_spec : Z; r_l : lstate; r_old : Z }.
 
-Definition rinit (sz n : Z) : rstate := {| r_spec := n; r_l := linit ideal sz n |}.
+Inductive rlabel := RStep (l : label) | RRestart | RRestartUndrained.
+
+Definition rinit (sz n : Z) : rstate := {| r_spec := n; r_l := linit ideal sz n; r_old := 0 |}.
 
 Definition rstep (sz : Z) (r : rstate) (l : rlabel) : rstate :=
   match l with
-  | RStep l' => {| r_spec := match l' with LSetMax n => n | _ => r_spec r end; r_l := lstep ideal (r_l r) l' |}
-  | RRestart => {| r_spec := r_spec r; r_l := linit ideal sz (r_spec r) |}
+  | RStep l' => {| r_spec := match l' with LSetMax n => n | _ => r_spec r end; r_l := lstep ideal (r_l r) l';
+                  r_old := r_old r |}
+  | RRestart =>
+      if is_nil (opened (r_l r))
+      then {| r_spec := r_spec r; r_l := linit ideal sz (r_spec r); r_old := r_old r |}
+      else r     (* Shutdown is still waiting for the listener to drain *)
+  | RRestartUndrained =>
+      {| r_spec := r_spec r; r_l := linit ideal sz (r_spec r); r_old := r_old r + olen (r_l r) |}
   end.
 
 Definition rrun (sz : Z) (r : rstate) (ls : list rlabel) : rstate := fold_left (rstep sz) ls r.
 
-Definition rlabel_ok (l : rlabel) : Prop := match l with RStep l' => label_ok l' | RRestart => True end.
+Definition rlabel_ok (l : rlabel) : Prop :=
+  match l with RStep l' => label_ok l' | RRestart => True | RRestartUndrained => False end.
+
+(** connections being served: those of the listener in force and those left on replaced ones *)
+Definition r_serving (r : rstate) : Z := used (r_l r) + r_old r.
 
 (** * MQTT broker connection cap *)
 
